@@ -120,7 +120,7 @@ def run(ctx, res):
                 viol(res, what, {"nums": [str(x) for x in c["spec"]["nums"]], "styles": c["spec"]["styles"],
                                  "query": C.jsonable(q)})
     # 2. round histories
-    hcases = S.corr_histories(ctx, res, stats, ctx.n(420, 6000), ctx.n(80, 1000))
+    hcases = S.corr_histories(ctx, res, stats, ctx.n(420, 2400), ctx.n(80, 400))
     S.corr_small(ctx, res, stats, which=("prep",))
     for c in hcases:
         h = c["hist"]
@@ -144,7 +144,7 @@ def run(ctx, res):
             stats["histories where some p-value goes up (last-entry test / unfiltered data)"] = \
                 stats.get("histories where some p-value goes up (last-entry test / unfiltered data)", 0) + 1
     # 3. long samples for the p-value clauses (oracle only)
-    for _ in range(ctx.n(150, 1500)):
+    for _ in range(ctx.n(150, 600)):
         h = S.gen_long_history(ctx.rng)
         sd = h["seeds"]
         R = len(h["sizes"])
